@@ -22,6 +22,7 @@ RULES = {
     'R2': 'query and update variants share the implementation',
     'R3': 'same address parser and error table',
     'R4': 'same delta accessors with the right signs',
+    'R5': 'the paged listing enumerates each UTXO once: inclusive scan bounds and key order (= C01.R6), resume offset and next_page (= C06.R5/R6)',
 }
 ASSUMPTIONS = []
 
@@ -33,6 +34,27 @@ def admission(prog, f, apply_pats):
     d = cut_literals(prog, k, ap.bb)
     g = cfg(k)
     return {'fn': k, 'site': ap, 'header': h, 'dnf': d}
+
+
+def unfiltered_total(ctx, rule, au=None, ab=None, C=None):
+    """with c = 0 neither walk has a feasible early exit: the unfiltered answer is as of the best
+    chain's tip (also C02.R4: every endpoint names the same tip)"""
+    prog = ctx.prog
+    if au is None:
+        fu = ctx.fn(rule, GU + 'get_utxos_from_chain')
+        fb = ctx.fn(rule, GB + 'get_balance_private')
+        if not (fu and fb):
+            return
+        au = admission(prog, fu, ['ic_btc_canister::address_utxoset::AddressUtxoSet::apply_block'])
+        ab = admission(prog, fb, [UB + 'GenericUnstableBlocks::get_added_outpoints'])
+        if not au or not ab:
+            ctx.unknown(rule, 'walks', fu, 'chain walks not found')
+            return
+        REQC = P.call('core::option::Option::unwrap_or', P.field('min_confirmations', P.param('request')), P.const(0))
+        C = P.either(P.param('min_confirmations'), P.captured(ex(prog, ab['fn']), REQC), REQC)
+    for nm, a in (('get_utxos', au), ('get_balance', ab)):
+        ok, why = total_under(prog, a['fn'], a['site'].bb, {}, preds=[(C, 0)])
+        ctx.check(ok, rule, 'unfiltered-total:' + nm, a['site'], '%s applies every best-chain block when c = 0' % nm, '%s with c = 0: %s' % (nm, why))
 
 
 def run(ctx):
@@ -61,9 +83,7 @@ def run(ctx):
                       'get_balance admits block i by the same stability count as get_utxos',
                       'get_balance admits blocks by %s instead of the stability count get_utxos uses: with a competing block at some height the two answers differ '
                       '(e.g. chain of 3 + one 1-block fork, c = 3: balance 500, sum of UTXOs 0)' % ([show(c)[:200] for c in ob][:2] or [show(c)[:200] for c in cond_exprs(prog, ab['fn'], ab['site'].bb)][-2:]))
-            for nm, a in (('get_utxos', au), ('get_balance', ab)):
-                ok, why = total_under(prog, a['fn'], a['site'].bb, {}, preds=[(C, 0)])
-                ctx.check(ok, 'R1', 'unfiltered-total:' + nm, a['site'], '%s applies every best-chain block when c = 0' % nm, '%s with c = 0: %s' % (nm, why))
+            unfiltered_total(ctx, 'R1', au, ab, C)
             # both leave the loop on refusal
             for nm, a in (('get_utxos', au), ('get_balance', ab)):
                 k, g, h = a['fn'], cfg(a['fn']), a['header']
@@ -160,6 +180,13 @@ def run(ctx):
     # balance side does by subtraction (shared with C01.R8)
     from rules import c01
     c01.r8(SubCtx(ctx, {'R8': 'R4'}))
+    # R5: "the UTXOs reported for the same request" are all pages followed: the listing must enumerate
+    # every UTXO of the address exactly once across page boundaries — inclusive scan bounds at the page
+    # offset, key order = Utxo order (shared with C01.R6), offset applied to both sources, next_page =
+    # first UTXO not returned (shared with C06.R5/R6)
+    c01.r6(SubCtx(ctx, {'R6': 'R5'}))
+    from rules import c06
+    c06.run(SubCtx(ctx, {'R5': 'R5', 'R6': 'R5'}))
     ap = ctx.fn('R4', 'ic_btc_canister::address_utxoset::AddressUtxoSet::apply_block')
     if ap:
         names = sorted({c.short.rsplit('::', 1)[-1] for c in ap.calls() if not c.cleanup and c.matches(UB + 'GenericUnstableBlocks::get_*')})
